@@ -13,6 +13,7 @@ import (
 	"math/rand"
 	"sort"
 	"strings"
+	"sync/atomic"
 	"time"
 
 	"github.com/mosaicnetworks/babble/src/common"
@@ -697,6 +698,8 @@ func joinThenFF(r *Result, rng *rand.Rand, like *hg.Block) {
 		return listOrDash(l)
 	}
 	defer func() { r.Compare(tc) }()
+	var serving atomic.Value
+	serving.Store([2]interface{}{fb, ff})
 	stop := make(chan struct{})
 	go func() {
 		for {
@@ -706,7 +709,8 @@ func joinThenFF(r *Result, rng *rand.Rand, like *hg.Block) {
 				case *bnet.JoinRequest:
 					rpc.Respond(&bnet.JoinResponse{FromID: configured[0].peer.ID(), Accepted: true, AcceptedRound: 0, Peers: claimed}, nil)
 				case *bnet.FastForwardRequest:
-					rpc.Respond(&bnet.FastForwardResponse{FromID: strangers[0].peer.ID(), Block: *fb, Frame: *ff, Snapshot: []byte("evil snapshot")}, nil)
+					cur := serving.Load().([2]interface{})
+					rpc.Respond(&bnet.FastForwardResponse{FromID: strangers[0].peer.ID(), Block: *(cur[0].(*hg.Block)), Frame: *(cur[1].(*hg.Frame)), Snapshot: []byte("evil snapshot")}, nil)
 				default:
 					rpc.Respond(nil, fmt.Errorf("busy"))
 				}
@@ -724,6 +728,28 @@ func joinThenFF(r *Result, rng *rand.Rand, like *hg.Block) {
 	}
 	r.Inc("join_then_ff_state_"+victim.GetState().String(), 1)
 	tc.Op(fmt.Sprintf("TR join 1 0 %s", nums(claimed)), sets())
+	if rng.Intn(3) == 0 {
+		// first a response that configured validators endorse: a new set (configured + two newcomers),
+		// signed by everybody. It is accepted, and the newcomers are from then on keys the node has a
+		// reason to trust; the strangers of the second response are not.
+		newcomers := newParticipants(rng, 2)
+		for i, p := range newcomers {
+			num[p.peer.PubKeyString()] = 50 + i
+			p.peer.NetAddr = strangers[0].peer.NetAddr
+		}
+		eb, ef := forgeResponseBy(append(append([]*participant{}, configured...), newcomers...), like)
+		serving.Store([2]interface{}{eb, ef})
+		victim.SetState(_state.CatchingUp)
+		ecls, edet := guarded(func() error { return victim.VerifFastForward() })
+		r.Inc("join_then_ff_endorsed_"+ecls, 1)
+		tc.Op(fmt.Sprintf("TR ff %s %s 1 1 1", nums(ef.Peers), signers(eb, ef)), fmt.Sprintf("O %s", map[bool]string{true: "acc", false: "rej"}[ecls == "ok"]), sets())
+		if ecls != "ok" {
+			r.Violate("impl-violation", "a response endorsed by every configured validator was refused after the join handshake: "+edet, "join-then-ff-endorsed-refused", nil)
+		}
+		// the forged one must be newer than what the node now holds
+		fb, ff = forgeResponseBy(strangers, eb)
+		serving.Store([2]interface{}{fb, ff})
+	}
 	victim.SetState(_state.CatchingUp)
 	stateBefore := append([]byte{}, a.state...)
 	restoredBefore := a.restored
@@ -741,7 +767,7 @@ func joinThenFF(r *Result, rng *rand.Rand, like *hg.Block) {
 		}
 		return false
 	}
-	if cls == "ok" || victim.VerifCore().Hashgraph().Store.LastBlockIndex() >= 0 || strangerIn(victim.VerifCore().Validators()) {
+	if cls == "ok" || victim.VerifCore().Hashgraph().Store.LastBlockIndex() == fb.Index() || strangerIn(victim.VerifCore().Validators()) {
 		r.Violate("impl-violation", fmt.Sprintf("after a join handshake answered by a stranger (peer list variant %d) the node reset to a block signed only by strangers (%s %s)", variant, cls, det),
 			"join-then-ff-accepted", map[string]interface{}{"variant": variant})
 	}
